@@ -23,15 +23,16 @@ func checkC09(c *Ctx, r *Report) {
 	// ---- C09.a only formatted code is written
 	const gr = "generator/routes.GenerateRoutes"
 	const oif = "generator/compilation.OptimizeImportsAndFormat"
-	ruleSiteAfterOK(c, r, "C09.a", gr, "os.WriteFile", oif, -1, "the routes file is written only after OptimizeImportsAndFormat succeeded (an unformattable rendering is an error, not an artifact)")
+	ruleWriteAfterOK(c, r, "C09.a", gr, oif, "the routes file is written only after OptimizeImportsAndFormat succeeded (an unformattable rendering is an error, not an artifact)")
 	if fi := need(c, r, "C09.a", gr); fi != nil {
 		viol := ""
 		var sites []string
-		for _, wf := range callsIn(fi.SSA, false, nameIs("os.WriteFile")) {
-			sites = append(sites, w.pos(wf.Pos()))
+		fws := w.fileWritesOf(fi.SSA, 0)
+		for _, fw := range fws {
+			sites = append(sites, w.pos(fw.Site.Pos()))
 			// the data operand is the formatter's first result itself (through conversions only):
 			// no phi that could merge the raw rendering back in
-			var data ssa.Value = wf.Common().Args[1]
+			var data ssa.Value = fw.Data
 			for {
 				switch v := data.(type) {
 				case *ssa.Convert:
@@ -45,17 +46,25 @@ func checkC09(c *Ctx, r *Report) {
 			}
 			ex, ok := data.(*ssa.Extract)
 			if !ok || ex.Index != 0 {
-				viol = fmt.Sprintf("%s: the bytes written are not simply the first result of OptimizeImportsAndFormat (%T): e.g. a fallback to the raw raymond.Render output after a formatter failure writes a syntactically invalid file and the command exits 0", w.pos(wf.Pos()), data)
+				viol = fmt.Sprintf("%s: the bytes written (%s) are not simply the first result of OptimizeImportsAndFormat (%T): e.g. a fallback to / a copy of the raw raymond.Render output after a formatter failure leaves a syntactically invalid file at the output path", w.pos(fw.Site.Pos()), fw.Via, data)
 			} else if cl, ok := ex.Tuple.(*ssa.Call); !ok || calleeName(cl) != oif {
-				viol = fmt.Sprintf("%s: the bytes written are not the result of OptimizeImportsAndFormat", w.pos(wf.Pos()))
+				viol = fmt.Sprintf("%s: the bytes written are not the result of OptimizeImportsAndFormat", w.pos(fw.Site.Pos()))
 			}
-			pa := sliceOf(wf.Common().Args[0])
+			pa := fw.PathAtoms
 			if !pa.hasFieldNamed("OutputPath") || !pa.hasFieldNamed("RoutesConfig") {
-				viol = fmt.Sprintf("%s: output path is not RoutesConfig.OutputPath", w.pos(wf.Pos()))
+				viol = fmt.Sprintf("%s: output path is not RoutesConfig.OutputPath", w.pos(fw.Site.Pos()))
+			}
+			if !fw.Truncates {
+				viol = fmt.Sprintf("%s: the routes file is written with %s without O_TRUNC: a shorter regeneration leaves stale code behind the new file", w.pos(fw.Site.Pos()), fw.Via)
 			}
 		}
-		if len(sites) != 1 {
-			viol = fmt.Sprintf("expected one os.WriteFile in %s, found %d", gr, len(sites))
+		if len(fws) != 1 {
+			viol = fmt.Sprintf("expected one file write in %s, found %d", gr, len(fws))
+			for _, fw := range fws {
+				if _, isEx := stripTrivial(fw.Data).(*ssa.Extract); !isEx {
+					viol = fmt.Sprintf("%s: %s writes %d files; the one at %s (%s) does not carry the formatter's output: an unformattable rendering still leaves a file at the output path", w.pos(fw.Site.Pos()), gr, len(fws), w.pos(fw.Site.Pos()), fw.Via)
+				}
+			}
 		}
 		o := r.add("C09.a", "fieldflow", gr+":WriteFile(data)", "what is written is exactly the optimiser/formatter output", []string{gr}, sites, viol)
 		o.NonTrivial = true
